@@ -11,7 +11,9 @@ SHORTS = "abcdovxSqzf"
 SUBS = ["sub", "su", "run", "ru", "test", "t", "add", "hx"]
 VALUES = [b"v", b"w", b"x1", b"", b"a,b", b"a,,b", b"1", b"-1", b"-x", b"--y", b"sub", b"run", b"help", b"=", b"v=w",
           b"\xff", b"-", b"--", b"true", b"false", b"300", b"END", b"0", b"255", "é".encode(),
-          b"a,\xff", b"\xffb,c"]     # a declared delimiter next to bytes that are not UTF-8: splitting is byte-level
+          b"a,\xff", b"\xffb,c",     # a declared delimiter next to bytes that are not UTF-8: splitting is byte-level
+          # long non-ASCII values: an error message that echoes (part of) a rejected value must still render
+          ("\u00e4" * 70).encode(), b"a" * 63 + ("\u65e5\u672c\u8a9e" * 4).encode(), b"x" * 62 + ("\u00e9" * 40).encode()]
 SAFE_VALUES = [b"v", b"w", b"x1", b"a,b", b"1", b"v=w", b"true", b"0", b"zz", b"3"]
 
 
